@@ -298,6 +298,9 @@ fn build_context_evaluator(scope: &Scope, context: &Context) -> Result<Evaluator
   scope.pop();
   Ok(Box::new(move |scope: &Scope| {
     let mut evaluated_context = FeelContext::default();
+    let mut result = None;
+    // the entries are visible for the next entries of this context, but not outside of it
+    scope.push(FeelContext::default());
     for (opt_name, evaluator) in &entry_evaluators {
       match opt_name {
         Some(name) => {
@@ -306,11 +309,13 @@ fn build_context_evaluator(scope: &Scope, context: &Context) -> Result<Evaluator
           evaluated_context.set_entry(name, value);
         }
         None => {
-          return evaluator(scope);
+          result = Some(evaluator(scope));
+          break;
         }
       }
     }
-    Value::Context(evaluated_context)
+    scope.pop();
+    result.unwrap_or_else(|| Value::Context(evaluated_context))
   }))
 }
 
